@@ -434,7 +434,7 @@ namespace
             std::string bl = bad_list(-1, 0, false, nbad, ncheck);
             // guard zones around upstream blocks
             auto&       w  = world();
-            std::size_t gd = 0;
+            std::size_t gd = w.healed_damage;
             for (auto& b : w.blocks)
             {
                 if (b.is_static || !b.guarded)
